@@ -2,6 +2,7 @@ package main
 
 import (
 	"fmt"
+	"github.com/echovault/sugardb/sugardb"
 	"math/rand"
 	"os"
 	"path/filepath"
@@ -73,7 +74,7 @@ func checkC10(ctx *Ctx) {
 		return
 	}
 	quietLogs()
-	nh := ctx.N(16, 240)
+	nh := ctx.N(64, 400)
 	for h := 0; h < nh; h++ {
 		if !ctx.Mine(h) {
 			continue
@@ -102,7 +103,7 @@ func c10History(ctx *Ctx, h int) {
 	defer run.close()
 	var script []string
 	script = append(script, populate(run, r, 10+r.Intn(25), true)...)
-	prev := map[int]map[string]string{}
+	var prevRaw sugardb.VerifDumpResult // dataset at the previous successful snapshot (raw: canonicalised at restore time)
 	prevLS := "none"
 	for e := 0; e < earlier; e++ {
 		clk.Advance(int64(1+r.Intn(5000)) * 1e6)
@@ -110,7 +111,7 @@ func c10History(ctx *Ctx, h int) {
 		res, _ := run.exec(pOp{Caller: "emb", Argv: []string{"@SNAP"}})
 		script = append(script, "@SNAP -> "+res)
 		if res == "ok" {
-			prev = run.canon()
+			prevRaw = run.in.S.VerifDump()
 			prevLS = lastSave(run.in)
 		}
 	}
@@ -140,16 +141,18 @@ func c10History(ctx *Ctx, h int) {
 			Case: map[string]interface{}{"script": script}, Key: "snap-crash"})
 		return
 	}
-	cur := run.canon()
+	curRaw := run.in.S.VerifDump()
 	curLS := lastSave(run.in)
 	if res != "ok" {
 		// "nothing new": the dataset equals the previous snapshot
-		cur, curLS = prev, prevLS
+		curRaw, curLS = prevRaw, prevLS
 	}
 	ctx.Count("snapshot_result:"+strings.SplitN(res, ":", 2)[0], 1)
 	restoreAt := clk // same clock: no time passes between crash and restart in this lane
 	check := func(kind string, img snapImage, mutate func(string) error, extra string) {
 		d, rd, err := restoreSnapDump(img.Dir, restoreAt, mutate)
+		// keys whose deadline has passed by the time of the restart are gone from both candidates
+		cur, prev := CanonDump(curRaw, restoreAt.NowNs()), CanonDump(prevRaw, restoreAt.NowNs())
 		defer os.RemoveAll(rd.dir)
 		ctx.Eval(1)
 		gen := "?"
@@ -253,7 +256,7 @@ func c10History(ctx *Ctx, h int) {
 			ctx.Violate(Violation{Kind: "failing_attempt", Lane: "snapshot-fail", What: fmt.Sprintf("a failed snapshot attempt changed LASTSAVE from %s to %s", curLS, ls),
 				Case: map[string]interface{}{"script": script}, Key: "snap-fail-lastsave"})
 		}
-		prev, prevLS = cur, curLS
+		prevRaw, prevLS = curRaw, curLS
 		check("failing_attempt", img, nil, "")
 		ctx.Class("failing_attempt|eisdir")
 	}
@@ -263,8 +266,8 @@ func c10History(ctx *Ctx, h int) {
 	run2Before := listFiles(filepath.Join(dir, "snapshots"))
 	if res3, _ := run.exec(pOp{Caller: "emb", Argv: []string{"@SNAP"}}); res3 == "ok" {
 		// there was something new (the writes after the last good snapshot): take another one with nothing new
-		cur, curLS = run.canon(), lastSave(run.in)
-		prev, prevLS = cur, curLS
+		curRaw, curLS = run.in.S.VerifDump(), lastSave(run.in)
+		prevRaw, prevLS = curRaw, curLS
 		clk.Advance(7e6)
 		run2Before = listFiles(filepath.Join(dir, "snapshots"))
 		res3, _ = run.exec(pOp{Caller: "emb", Argv: []string{"@SNAP"}})
